@@ -4599,3 +4599,301 @@ func ruleStreamedBlockSizeChecked(r *Run) {
 	}
 	r.check(n >= 2, "labelmap:streamed-block-stores", fmt.Sprintf("%d", n), "fewer than expected: rule needs review", "-")
 }
+
+// ---------------------------------------------------------------------------------------------
+// R13.27 / R20.60 — what is stored as a body's element list was decoded as one
+
+func init() {
+	reg := func(id, prop string) {
+		register(ruleDef{ID: id, Prop: prop, Tier: "quick", Floor: 2,
+			Title: "what is stored as a body's element list is one: in the annotation package, every Put under a label key (NewLabelTKey) stores bytes produced by json.Marshal, or bytes that came in with the request and lie behind a json.Unmarshal into the element-list type on every path from the function's entry — a posted string that is not a list of elements makes every later read and update of that body fail until the lists are reloaded",
+			Fn:    ruleLabelListStoredIsAList})
+	}
+	reg("R13.27", "C13")
+	reg("R20.60", "C20")
+}
+
+func ruleLabelListStoredIsAList(r *Run) {
+	w := r.W
+	n := 0
+	isJSON := func(c ssa.CallInstruction, name string) bool {
+		callee := staticCallee(c)
+		return callee != nil && callee.Pkg != nil && callee.Pkg.Pkg.Path() == "encoding/json" && callee.Name() == name
+	}
+	for _, f := range w.RepoFuncs {
+		if relPkg(pkgPathOf(f)) != "datatype/annotation" || len(f.Blocks) == 0 || isTestFunc(w, f) {
+			continue
+		}
+		k := 0
+		for _, c := range calls(f) {
+			if methodNameOf(c) != "Put" || !c.Common().IsInvoke() {
+				continue
+			}
+			args := c.Common().Args
+			if len(args) < 2 {
+				continue
+			}
+			key, val := args[len(args)-2], args[len(args)-1]
+			labelKey := false
+			for _, rv := range roots(key, f) {
+				if kc, ok := rv.V.(*ssa.Call); ok {
+					if callee := kc.Call.StaticCallee(); callee != nil && callee.Name() == "NewLabelTKey" {
+						labelKey = true
+					}
+				}
+			}
+			if !labelKey {
+				continue
+			}
+			n++
+			k++
+			marshalled := false
+			for d := range dataDeps(val) {
+				if dc, ok := d.(*ssa.Call); ok && isJSON(dc, "Marshal") {
+					marshalled = true
+				}
+				if ex, ok := d.(*ssa.Extract); ok {
+					if dc, ok := ex.Tuple.(*ssa.Call); ok && isJSON(dc, "Marshal") {
+						marshalled = true
+					}
+				}
+			}
+			if marshalled {
+				r.check(true, fmt.Sprintf("%s:label-list-put#%d", fname(f), k), "stores the output of json.Marshal", "", w.pos(c.Pos()))
+				continue
+			}
+			// a parameter handed on as it is (the caller marshalled it)
+			onlyParam := true
+			for _, rv := range roots(val, f) {
+				if _, ok := rv.V.(*ssa.Parameter); !ok {
+					onlyParam = false
+				}
+			}
+			if onlyParam && len(roots(val, f)) > 0 {
+				r.check(true, fmt.Sprintf("%s:label-list-put#%d", fname(f), k), "stores a value its caller built", "", w.pos(c.Pos()))
+				continue
+			}
+			// otherwise: every path to the Put passes a decode into the element-list type
+			isDecode := func(x ssa.Instruction) bool {
+				dc, ok := x.(ssa.CallInstruction)
+				if !ok || !isJSON(dc, "Unmarshal") {
+					return false
+				}
+				dst := dc.Common().Args[1]
+				return strings.Contains(dst.Type().String(), "Elements") || func() bool {
+					if mi, ok := dst.(*ssa.MakeInterface); ok {
+						return strings.Contains(mi.X.Type().String(), "Elements")
+					}
+					return false
+				}()
+			}
+			// the points at which the bytes are accepted: the Put itself, or — when the value is taken out of a
+			// local table filled earlier in the function — the stores into that table
+			points := []ssa.Instruction{c}
+			for d := range dataDeps(val) {
+				nx, ok := d.(*ssa.Next)
+				if !ok {
+					continue
+				}
+				rg, ok := nx.Iter.(*ssa.Range)
+				if !ok {
+					continue
+				}
+				if mk, ok := rg.X.(*ssa.MakeMap); ok {
+					var ups []ssa.Instruction
+					for _, ref := range *mk.Referrers() {
+						if mu, ok := ref.(*ssa.MapUpdate); ok && mu.Map == ssa.Value(mk) {
+							ups = append(ups, mu)
+						}
+					}
+					if len(ups) > 0 {
+						points = ups
+					}
+				}
+			}
+			var p []ssa.Instruction
+			for _, pt := range points {
+				dominated := false
+				for _, b2 := range f.Blocks {
+					for _, x := range b2.Instrs {
+						if isDecode(x) && domInstr(x, pt) {
+							dominated = true
+						}
+					}
+				}
+				if !dominated {
+					p = []ssa.Instruction{pt}
+				}
+			}
+			r.check(p == nil, fmt.Sprintf("%s:label-list-put#%d:decoded-first", fname(f), k), "the bytes are accepted for storing only behind their decoding as a list of elements",
+				"bytes taken from the request are stored under a label key without having been decoded as a list of elements: POST labels {\"100\":\"garbage\"} is acknowledged, and from then on GET label/100 and every element POST or DELETE that touches body 100 fail", w.pos(c.Pos()), w.renderPath(p)...)
+		}
+	}
+	r.check(n >= 2, "annotation:label-list-puts", fmt.Sprintf("%d", n), "fewer than expected: rule needs review", "-")
+}
+
+// ---------------------------------------------------------------------------------------------
+// R6.19 / R20.61 — an instance gets only a name a URL can spell
+
+func init() {
+	reg := func(id, prop string) {
+		register(ruleDef{ID: id, Prop: prop, Tier: "quick", Floor: 2,
+			Title: "an instance gets only a name a URL can spell: in repoManager.newData the entry into the repo's data map lies behind a refusal of the empty name and behind a refusal of a name that contains a path separator (strings.Contains…/Index… on the name) — an instance named \"\" or \"a/b\" is created and persisted but can never be addressed, read or deleted through the API",
+			Fn:    ruleInstanceNameAddressable})
+	}
+	reg("R6.19", "C06")
+	reg("R20.61", "C20")
+}
+
+func ruleInstanceNameAddressable(r *Run) {
+	w := r.W
+	f := w.method("datastore", "repoManager", "newData")
+	if f == nil {
+		r.undecided("datastore.repoManager.newData", "anchor not found")
+		return
+	}
+	var name *ssa.Parameter
+	for _, p := range f.Params {
+		if typeIs(p.Type(), "dvid", "InstanceName") {
+			name = p
+		}
+	}
+	var insert ssa.Instruction
+	for _, b := range f.Blocks {
+		for _, in := range b.Instrs {
+			if mu, ok := in.(*ssa.MapUpdate); ok && isFieldLoad(mu.Map, "repoT", "data") {
+				insert = mu
+			}
+		}
+	}
+	if name == nil || insert == nil {
+		r.undecided("newData:name-and-insertion", "the name parameter or the insertion into the data map was not found")
+		return
+	}
+	fromName := func(v ssa.Value) bool {
+		if stripConv(v) == ssa.Value(name) {
+			return true
+		}
+		for d := range dataDeps(v) {
+			if d == ssa.Value(name) {
+				return true
+			}
+		}
+		return false
+	}
+	emptyRefused, sepRefused := false, false
+	for _, b := range f.Blocks {
+		ifi, ok := b.Instrs[len(b.Instrs)-1].(*ssa.If)
+		if !ok || !b.Dominates(insert.Block()) {
+			continue
+		}
+		switch c := ifi.Cond.(type) {
+		case *ssa.BinOp:
+			if cst, ok := c.Y.(*ssa.Const); ok && cst.Value != nil && cst.Value.Kind() == constant.String && constant.StringVal(cst.Value) == "" && fromName(c.X) && (c.Op == token.EQL || c.Op == token.NEQ) {
+				emptyRefused = true
+			}
+			if x := lenOf(c.X); x != nil && fromName(x) {
+				emptyRefused = true
+			}
+		case *ssa.Call:
+			callee := c.Call.StaticCallee()
+			if callee != nil && callee.Pkg != nil && callee.Pkg.Pkg.Path() == "strings" && (strings.HasPrefix(callee.Name(), "Contains") || strings.HasPrefix(callee.Name(), "Index")) && len(c.Call.Args) > 0 && fromName(c.Call.Args[0]) {
+				sepRefused = true
+			}
+		}
+		if bo, ok := ifi.Cond.(*ssa.BinOp); ok {
+			for _, o := range []ssa.Value{bo.X, bo.Y} {
+				if c, ok := o.(*ssa.Call); ok {
+					callee := c.Call.StaticCallee()
+					if callee != nil && callee.Pkg != nil && callee.Pkg.Pkg.Path() == "strings" && strings.HasPrefix(callee.Name(), "Index") && len(c.Call.Args) > 0 && fromName(c.Call.Args[0]) {
+						sepRefused = true
+					}
+				}
+			}
+		}
+	}
+	r.check(emptyRefused, "newData:empty-name-refused", "the empty name is tested before the instance is entered", "newData enters an instance under the empty name: POST repo/<uuid>/instance with dataname \"\" is acknowledged, and the instance can never be addressed or deleted", w.pos(insert.Pos()))
+	r.check(sepRefused, "newData:name-with-path-separator-refused", "the name is searched for a path separator before the instance is entered", "newData enters an instance whose name contains '/': every URL for it is parsed as another instance plus extra path elements, so it can never be addressed or deleted", w.pos(insert.Pos()))
+}
+
+// ---------------------------------------------------------------------------------------------
+// R5.21 / R20.62 — a key request names exactly one key
+
+func init() {
+	reg := func(id, prop string) {
+		register(ruleDef{ID: id, Prop: prop, Tier: "quick", Floor: 1,
+			Title: "a key request names exactly one key: in keyvalue's handler the path element used as the key of a single-key read, write or delete (PutData, DeleteData, GetData, KeyExists) is taken only behind a test that the path has no further elements (len(parts) > 5 or != 5 leaves) — the path is split at every '/', so POST key/a/b would otherwise silently overwrite key \"a\"",
+			Fn:    ruleKeyRequestNamesOneKey})
+	}
+	reg("R5.21", "C05")
+	reg("R20.62", "C20")
+}
+
+func ruleKeyRequestNamesOneKey(r *Run) {
+	w := r.W
+	f := w.method("datatype/keyvalue", "Data", "ServeHTTP")
+	if f == nil {
+		r.undecided("keyvalue.Data.ServeHTTP", "anchor not found")
+		return
+	}
+	n := 0
+	seen := map[ssa.Value]bool{}
+	for _, c := range calls(f) {
+		callee := staticCallee(c)
+		if callee == nil {
+			continue
+		}
+		switch callee.Name() {
+		case "PutData", "DeleteData", "GetData", "KeyExists":
+		default:
+			continue
+		}
+		for _, a := range c.Common().Args {
+			u, ok := a.(*ssa.UnOp)
+			if !ok {
+				continue
+			}
+			ia, ok := u.X.(*ssa.IndexAddr)
+			if !ok || seen[u] {
+				continue
+			}
+			k, ok := constInt(ia.Index)
+			if !ok {
+				continue
+			}
+			seen[u] = true
+			n++
+			bounded := false
+			for _, b := range f.Blocks {
+				ifi, isIf := b.Instrs[len(b.Instrs)-1].(*ssa.If)
+				if !isIf {
+					continue
+				}
+				bo, isBo := ifi.Cond.(*ssa.BinOp)
+				if !isBo {
+					continue
+				}
+				x := lenOf(bo.X)
+				cst, isC := constInt(bo.Y)
+				if x == nil || !isC || !(x == ia.X || sameRoots(x, ia.X, f)) {
+					continue
+				}
+				switch {
+				case bo.Op == token.GTR && cst == k+1 && guardedByEdge(ifi, 1, ia):
+					bounded = true
+				case bo.Op == token.GEQ && cst == k+2 && guardedByEdge(ifi, 1, ia):
+					bounded = true
+				case bo.Op == token.NEQ && cst == k+1 && guardedByEdge(ifi, 1, ia):
+					bounded = true
+				case bo.Op == token.EQL && cst == k+1 && guardedByEdge(ifi, 0, ia):
+					bounded = true
+				case bo.Op == token.LEQ && cst == k+1 && guardedByEdge(ifi, 0, ia):
+					bounded = true
+				}
+			}
+			r.check(bounded, fmt.Sprintf("ServeHTTP:key-from-path-element-%d:no-further-elements", k), "taken behind a test that nothing follows it in the path",
+				"the key is the path element after 'key' and whatever follows it is ignored: POST key/a/b/c (or key/a%2Fb) is acknowledged and overwrites key \"a\", a key the request did not name", w.pos(ia.Pos()))
+		}
+	}
+	r.check(n >= 1, "keyvalue:single-key-path-elements", fmt.Sprintf("%d", n), "none found: rule needs review", w.fpos(f))
+}
